@@ -925,6 +925,22 @@ impl<H: DnsHandle> DnssecDnsHandle<H> {
                     return None;
                 }
 
+                // A DS RRset lives in the parent zone (RFC 4034 5): it can only be signed by a proper
+                // ancestor of its owner. An RRSIG over a DS RRset that names the owner itself - the child -
+                // as signer would let a forged DS RRset inherit "insecure" from the keys of an unsigned
+                // child instead of being bogus data of the signed parent.
+                if key.record_type == RecordType::DS
+                    && !key.name.is_root()
+                    && rrsig.data().input().signer_name == Name::from(&key.name)
+                {
+                    warn!(
+                        rrset_name = ?key.name,
+                        signer_name = %rrsig.data().input().signer_name,
+                        "RRSIG over a DS RRset names the owner itself as signer; skipping"
+                    );
+                    return None;
+                }
+
                 if i > MAX_RRSIGS_PER_RRSET {
                     warn!(
                         rrset_name = ?key.name,
